@@ -64,7 +64,9 @@ Definition collapse_basal_bifurcation (set_unrooted : bool) (h : heap) : hres :=
     match pick with
     | None => HOk h
     | Some (keep, del) =>
-      let h1 := add_len_try keep del h in
+      (* if to_del.length is not None: to_keep.length = to_del.length if to_keep.length is None
+         else to_keep.length + to_del.length   (repo commit 1fc3f136) *)
+      let h1 := add_len_none keep (elen h del) h in
       hdo h2 <- edge_collapse del false h1 ;;
       HOk (if set_unrooted then set_rooted (Some false) h2 else h2)
     end
